@@ -124,6 +124,10 @@ def extNames (env : ClassEnv) : Nat → List Base → List Name
       | .ext n => [n]
       | .user i => extNames env fuel (envGet env i)
 
+/-- `builtins.ValueError` denotes the builtin `ValueError` (the module does `import builtins`) -/
+def stripBuiltins (n : Name) : Name :=
+  if "builtins.".toList.isPrefixOf n then n.drop 9 else n
+
 /-- What is compared between the two sides for one bound name. -/
 inductive KindClass
   | function | method | classmethod | staticmethod | property | cls | exception | variable | foreign
@@ -181,7 +185,7 @@ structure State where
 
 inductive Outcome
   | ok (s : State)
-  | assertionError                        -- `assert target_obj.kind is DocumentableKind.METHOD`
+  | assertionError                        -- the `assert` of `_handleOldSchoolMethodDecoration`
   deriving Repr, Inhabited
 
 def lookup (l : List Member) (n : Name) : Option Member := l.find? (·.name = n)
@@ -354,7 +358,9 @@ def handleOldStyle (c : Ctx) (s : State) (n : Name) (w : Wrap) (inBlock : Bool) 
     match lookup s.contents n with
     | some obj =>
       if obj.cls = .function then
-        if obj.kind ≠ .method then .assertionError
+        -- `assert target_obj.kind in (METHOD, STATIC_METHOD, CLASS_METHOD)` (since 04d150a: the function might have been
+        -- decorated or wrapped already, the last wrapper decides)
+        if !(obj.kind = .method || obj.kind = .staticMethod || obj.kind = .classMethod) then .assertionError
         else .ok { s with contents := upd s.contents n (fun o =>
           { o with kind := match w with | .staticmethod => .staticMethod | .classmethod => .classMethod }) }
       else .ok (handleClassVar c s n none (some .call) inBlock)
@@ -603,7 +609,7 @@ def applyDecos (ns : Ns) : List Deco → PyObj → Option PyObj
 
 /-- `issubclass(cls, BaseException)` for a class whose external bases are builtins -/
 def isException (c : Ctx) (bases : List Base) : Bool :=
-  (extNames c.env (c.env.length + 1) bases).any (fun n => c.pyExc.contains n)
+  (extNames c.env (c.env.length + 1) bases).any (fun n => c.pyExc.contains (stripBuiltins n))
 
 mutual
 def execStmt (c : Ctx) (ns : Ns) : Stmt → Outcome
@@ -697,13 +703,13 @@ end PySem
 `Subset.inSubset c stmts`: a name may be bound again by a `def` or a `class` (whatever it was bound to) and a
 variable may be assigned again — the last binding wins on both sides; an assignment to a name that is bound to a
 function, class or property is excluded (pydoctor keeps the definition); `name = staticmethod(name)` right in the class
-that defined `name` as a plain method is allowed once, decorators of a `def` are bare
+that defined `name` as a method (decorated, wrapped already, or not) is allowed, decorators of a `def` are bare
 `classmethod` / `staticmethod` / `property` (in a class only, at most one of them per `def`), identity
 decorators defined in the package whose name does not end in `property`/`Property`, or non-name
 expressions; no `@x.setter` / `@x.deleter` / `@overload`; no bare annotation; `else`/`finally` parts bind nothing; an
 `if` guarded by a comparison of `__name__`/`'__main__'`/`None` is skipped by pydoctor exactly when it is not taken on import; a class attribute assigned a NON-literal does not
 shadow an inherited method or nested class (a literal may, since 91105ce); the external base names reachable from a class are classified
-alike by `_STD_LIB_EXCEPTIONS` and by `builtins`. -/
+alike by `_STD_LIB_EXCEPTIONS` (which sees the name as written, e.g. `builtins.ValueError`) and by `builtins`. -/
 namespace Subset
 open Ir
 
@@ -742,11 +748,11 @@ def inert : Stmt → Bool
   | _ => false
 
 def basesOk (c : Ctx) (bases : List Base) : Bool :=
-  (extNames c.env (c.env.length + 1) bases).all (fun n => c.pdExc.contains n == c.pyExc.contains n)
+  (extNames c.env (c.env.length + 1) bases).all (fun n => c.pdExc.contains n == c.pyExc.contains (stripBuiltins n))
 
 structure Seen where
   names : List Name := []       -- names bound so far, in order of first binding
-  plain : List Name := []       -- now bound by a `def` of a class without descriptor decorator, not wrapped yet
+  plain : List Name := []       -- now bound by a `def` of a class that is not a property (decorated or wrapped or not)
   docable : List Name := []     -- now bound by a `def` without descriptor decorator or by a `class`, not wrapped
   vars : List Name := []        -- now bound to a variable (an assignment)
   deriving Repr
@@ -768,7 +774,7 @@ def checkStmt (c : Ctx) (sn : Seen) : Stmt → Option Seen
     -- and so may a `def`
     if !decosOk c.inClass decos then none
     else some { names := addName sn.names n,
-                plain := if c.inClass && (descs decos).isEmpty then dropName n sn.plain ++ [n] else dropName n sn.plain,
+                plain := if c.inClass && !(descs decos).contains .property then dropName n sn.plain ++ [n] else dropName n sn.plain,
                 docable := if (descs decos).isEmpty then dropName n sn.docable ++ [n] else dropName n sn.docable,
                 vars := dropName n sn.vars }
   | .assign n v _ =>
@@ -786,8 +792,8 @@ def checkStmt (c : Ctx) (sn : Seen) : Stmt → Option Seen
     if Builder.isNameEqualsMain g == g.onImport then none
     else if Builder.isNameEqualsMain g then some sn else checkList c sn body
   | .oldStyle n _ =>
-    if c.inClass && sn.plain.contains n then
-      some { sn with plain := sn.plain.filter (· != n), docable := sn.docable.filter (· != n) } else none
+    -- a method of this class, whatever its decorator, may be wrapped (again): the last wrapper decides on both sides
+    if c.inClass && sn.plain.contains n then some { sn with docable := sn.docable.filter (· != n) } else none
   | .delName _ => none
   | .docAssign n _ =>
     -- the target must be a plain function or a class of this namespace (an object whose `__doc__` CPython lets one assign)
